@@ -88,24 +88,22 @@ theorem C11_pep695 :
     declaredAt Generated.classSite ["class ab[T]: pass".toList, "with ab as x: pass".toList] "ab".toList (1, 0) = (1, 6) := by
   decide
 
-/-! ### open finding `C11-splitlines-separator`: the model (like the code) works on `source.splitlines()`.
-    For the text "x = 1\n\x0c\nimport os\ndef f(): pass\n" the parser sees 4 lines and reports the import at (3, 0);
-    `str.splitlines` gives 5 lines, and the search started at line 3 of THOSE lines answers (4, 7) -- line 4 of the
-    parser's numbering is `def f(): pass`. -/
+/-! ### fixed by f8cda8c: `Source.lines` used `str.splitlines`, which also breaks at form feeds.
+    For the text "x = 1\\n\\x0c\\nimport os\\ndef f(): pass\\n" the parser sees 4 lines and reports the import at (3, 0);
+    `str.splitlines` gave 5 lines, and the search started at line 3 of THOSE lines answered (4, 7) -- line 4 of the
+    parser's numbering is `def f(): pass`.  `util.splitlines` gives the parser's 4 lines and the answer (3, 7). -/
 
-theorem C11_formfeed :
-    findIdLoc ["x = 1".toList, [], [], "import os".toList, "def f(): pass".toList] "os".toList (3, 0) 0 true = (4, 7) ∧
-    (["x = 1".toList, ['\x0c'], "import os".toList, "def f(): pass".toList] : List Str)[4 - 1]? = some "def f(): pass".toList := by
+theorem C11_formfeed_legacy :
+    splitlinesLegacy "x = 1\n\x0c\nimport os\ndef f(): pass\n".toList =
+      ["x = 1".toList, [], [], "import os".toList, "def f(): pass".toList] ∧
+    findIdLoc (splitlinesLegacy "x = 1\n\x0c\nimport os\ndef f(): pass\n".toList) "os".toList (3, 0) 0 true = (4, 7) := by
   decide
 
-/-! ### the full-strength statement `Props.C11.C11_stmt` fails beyond the 51-line window (open finding) -/
-
-theorem C11_stmt_false : ¬ SuppModel.Props.C11.C11_stmt := by
-  intro h
-  have := h ("from a import (".toList :: List.replicate 51 [] ++ ["  x)".toList]) "x".toList (1, 0) 53 2 "  x)".toList
-    (by decide) (by decide) (by decide +kernel) (by decide) (by decide) (by decide)
-    (Or.inr ⟨' ', by decide, by decide⟩) (Or.inr ⟨')', by decide, by decide⟩)
-  exact this (by decide +kernel)
+theorem C11_formfeed :
+    splitlines "x = 1\n\x0c\nimport os\ndef f(): pass\n".toList =
+      ["x = 1".toList, ['\x0c'], "import os".toList, "def f(): pass".toList] ∧
+    findIdLoc (splitlines "x = 1\n\x0c\nimport os\ndef f(): pass\n".toList) "os".toList (3, 0) 0 true = (3, 7) := by
+  decide
 
 /-! ### fixed by 4a16e68: `location()` reported positions of the MARKED text.  `x = 1\n[nn for nn in x]`, cursor (2, 3):
     the comprehension variable stands at (2, 8); the marked analysis has it at (2, 21) -/
